@@ -31,6 +31,9 @@ TRUSTED = ["model Evo.Readers (has_utf8_bom, csv_read_matrix, read_tum/kitti/eur
            "is below 1e-6 of the tolerance are counted as fragile and both outcomes accepted"]
 ASSUMPTIONS = ["files are UTF-8 text without the quote character and without NUL bytes; CR only in CRLF or as the last byte "
                "(a lone CR inside a line is a newline for paths but a csv.Error for StringIO handles - outside the conventions)",
+               "a data field holding bytes that are not UTF-8 is a non-numeric field: the file must not be loaded; python's text "
+               "layer refuses it with UnicodeDecodeError before evo sees the field - counted as refused (observation: not evo's "
+               "file-format error), a returned trajectory is flagged",
                "a BOM is only skipped for paths (a handle has no byte position): with a handle the BOM makes the first token "
                "non-numeric and the file is rejected",
                "transform files that numpy cannot parse as a matrix at all (non-numeric or ragged text, JSON that is not an "
@@ -304,6 +307,11 @@ def judge_text(case, val, out):
     if "error" in out:
         if nolone is not True:
             return None     # lone CR: outside the conventions (counted by the generator class)
+        if case.get("undecodable") and out["error"].startswith("UnicodeDecodeError") and _unsome(spec) is None:
+            # a byte sequence that is not UTF-8 inside a numeric field: python's text layer refuses the file before evo sees
+            # the field.  Any refusal counts as 'not loaded' here (see ASSUMPTIONS); only a returned trajectory is flagged.
+            STATS["undecodable_refused_by_text_layer"] = STATS.get("undecodable_refused_by_text_layer", 0) + 1
+            return None
         return {"kind": "spec-violation", "failing_input": True,
                 "detail": "reader raised %s instead of accepting or rejecting with FileInterfaceException" % out["error"]}
     m = _unsome(spec if nolone is True else model)
@@ -623,6 +631,58 @@ def systematic_malformed(ctx):
     return cs
 
 
+BAD_BYTES = [b"\xae", b"\xb2", b"\x80", b"\xbf", b"\xc3", b"\xe2\x82", b"\xff", b"\xfe", b"\xf0\x9f", b"\xc0", b"\xa0", b"\xe9"]
+
+
+def undecodable_cases(ctx):
+    """'a non-numeric field ... never loaded', defect in any row/column: a numeric field damaged at byte level - one character
+    with its high bit flipped (b'1\\xae25' for '1.25'), or a stray Latin-1 / truncated multi-byte sequence inside, before or
+    after the digits - so that the field is not a number (not even text) while the REMAINING characters still spell one.
+    Files given by path (a handle is decoded by the caller).  Refusal by python's text layer (UnicodeDecodeError) counts as
+    refusal; a returned trajectory is the violation."""
+    rng = ctx.np_rng(17)
+    cs = []
+    for i in range(ctx.n(72, 600)):
+        fmt = ["tum", "kitti", "euroc"][i % 3]
+        n = int(rng.integers(1, 6))
+        rows = [[s.encode("utf-8") for s in row] for row in well_formed_rows(rng, fmt, n)]
+        r = int(rng.integers(0, n)) if i % 4 else [0, n - 1][(i // 4) % 2]
+        ncol = len(rows[r])
+        c = int(rng.integers(0, min(ncol, 8 if fmt == "euroc" else ncol)))
+        tok = rows[r][c]
+        kind = i % 5
+        core = tok.strip()
+        if kind in (0, 1) and len(core) >= 2:
+            # flip the high bit of one character of the number ('.' -> 0xae, '2' -> 0xb2, 'e' -> 0xe5, '-' -> 0xad)
+            js = [j for j in range(len(tok)) if tok[j:j + 1] not in (b" ",)]
+            j = js[int(rng.integers(0, len(js)))] if kind == 0 else (tok.find(b".") if b"." in tok else js[0])
+            rest = tok[:j] + tok[j + 1:]
+            if py_float(rest.decode()) is None:   # the remaining characters must still spell a number
+                j = js[-1] if py_float(tok[:js[-1]].decode() or "x") is not None else j
+                rest = tok[:j] + tok[j + 1:]
+            bad = tok[:j] + bytes([tok[j] | 0x80]) + tok[j + 1:]
+            if py_float(rest.decode()) is None:
+                bad = tok[:1] + BAD_BYTES[i % len(BAD_BYTES)] + tok[1:]
+        else:
+            bb = BAD_BYTES[int(rng.integers(0, len(BAD_BYTES)))]
+            pos = [0, len(tok), int(rng.integers(0, len(tok) + 1))][kind % 3]
+            bad = tok[:pos] + bb + tok[pos:]
+        rows[r][c] = bad
+        d = DELIM[fmt]
+        nl = [b"\n", b"\r\n"][int(rng.integers(0, 2))]
+        lines = [d.join(row) for row in rows]
+        if rng.random() < 0.4:
+            lines.insert(int(rng.integers(0, len(lines) + 1)), b"# timestamp tx ty tz qx qy qz qw")
+        content = nl.join(lines) + (nl if rng.random() < 0.8 else b"")
+        bom = rng.random() < 0.2
+        if bom:
+            content = b"\xef\xbb\xbf" + content
+        case = text_case(fmt, "path", content, "undecodable-byte-in-field" + (",bom" if bom else ""), "reject")
+        case["undecodable"] = True
+        cs.append(case)
+    return cs
+
+
 def quat_cases(ctx):
     rng = ctx.np_rng(13)
     cs = []
@@ -763,7 +823,7 @@ def run(ctx, replay=None, proofs_ok=True):
     if replay is not None:
         cases = [replay["case"]]
     else:
-        cases = corpus() + well_formed_cases(ctx) + malformed_cases(ctx) + systematic_malformed(ctx) + written_cases(ctx) + quat_cases(ctx) + transform_cases(ctx)
+        cases = corpus() + well_formed_cases(ctx) + malformed_cases(ctx) + systematic_malformed(ctx) + undecodable_cases(ctx) + written_cases(ctx) + quat_cases(ctx) + transform_cases(ctx)
     failures, stats = differential(ctx, cases, imports=IMPORTS, impl=impl, expr=expr, judge=judge, shrink=shrink,
                                    nontrivial=nontrivial, per_file=60)
     hist = {}
@@ -784,7 +844,7 @@ def run(ctx, replay=None, proofs_ok=True):
                    "signs, nan/inf, underscores, 19-digit ns stamps, blanks around EuRoC fields; path / text handle / StringIO) + "
                    "separate malformed stream (14 classes: missing/extra column, junk or empty field, trailing/doubled/leading "
                    "delimiter, blank and whitespace rows, indented comment, tab or wrong delimiter, BOM on a handle, no data rows) "
-                   "with the defect in a random row and column + a systematic sweep (missing / junk / empty / extra field at every row and column of a small file) + TUM/KITTI files written by evo's own writers handed to the convention specs + quaternions (axis, unit, non-unit, tiny, zero) + transform files "
+                   "with the defect in a random row and column + a systematic sweep (missing / junk / empty / extra field at every row and column of a small file) + numeric fields damaged at byte level (high bit of one character flipped, stray Latin-1 / truncated UTF-8 bytes; path variant; any refusal accepted) + TUM/KITTI files written by evo's own writers handed to the convention specs + quaternions (axis, unit, non-unit, tiny, zero) + transform files "
                    "(.npy/text/JSON; SE(3), Sim(3), reflections, wrong bottom row, shapes, shear, near-miss at 0.2x / 1x / 20x of the "
                    "tolerance, JSON with/without scale, negative/zero scale, missing keys); distinct by input; non-trivial = at "
                    "least two lines, or a quaternion/transform case",
@@ -792,6 +852,7 @@ def run(ctx, replay=None, proofs_ok=True):
            "regimes": {"exact": stats["evaluations"] - STATS.get("fragile", 0), "rounded": 0, "fragile": STATS.get("fragile", 0)},
            "oracle_disagreements_float_vs_numpy": STATS.get("oracle_disagreements", 0),
            "transform_files_numpy_could_not_parse": STATS.get("transform_kernel_errors", 0),
+           "undecodable_fields_refused_with_UnicodeDecodeError": STATS.get("undecodable_refused_by_text_layer", 0),
            "disagreements": stats["disagreements"], "exhaustive": False}
     return {"failures": failures, "coverage": cov}
 
